@@ -116,6 +116,46 @@ func ExpandConds(conds []Cond, depth int) []Cond {
 			}
 			continue
 		}
+		// a small enumeration assembled on the way in and then tested: `state == Queued` where state is a phi of
+		// constants holds what every incoming edge carrying that constant holds
+		if bo, ok := c.V.(*ssa.BinOp); ok && (bo.Op == token.EQL || bo.Op == token.NEQ) {
+			var ph *ssa.Phi
+			var k *ssa.Const
+			if p, ok := ForwardedValue(bo.X).(*ssa.Phi); ok {
+				ph, k = p, constOf(bo.Y)
+			} else if p, ok := ForwardedValue(bo.Y).(*ssa.Phi); ok {
+				ph, k = p, constOf(bo.X)
+			}
+			if ph != nil && k != nil && k.Value != nil && !phiBusy[ph] && (c.Pol == (bo.Op == token.EQL)) {
+				phiBusy[ph] = true
+				var sets [][]Cond
+				usable := true
+				for i, e := range ph.Edges {
+					ek := constOf(e)
+					if ek == nil || ek.Value == nil {
+						usable = false // a non-constant edge: cannot tell
+						break
+					}
+					if ek.Value.ExactString() != k.Value.ExactString() {
+						continue
+					}
+					p := ph.Block().Preds[i]
+					pc := append([]Cond{}, BlockConds(p)...)
+					if ifi, ok := p.Instrs[len(p.Instrs)-1].(*ssa.If); ok && len(p.Succs) == 2 && p.Succs[0] != p.Succs[1] {
+						pc = append(pc, ExpandConds(flatten(Cond{V: ifi.Cond, Pol: p.Succs[0] == ph.Block(), If: ifi}), depth+1)...)
+					}
+					sets = append(sets, pc)
+				}
+				delete(phiBusy, ph)
+				if usable {
+					for _, ic := range intersectConds(sets) {
+						ic.If = c.If
+						ic.Sub = chainSubst(ic.Sub, c.Sub)
+						out = append(out, ic)
+					}
+				}
+			}
+		}
 		call, idx := callResult(c.V)
 		if call == nil {
 			continue
@@ -642,4 +682,47 @@ func ValueOutcomes(v ssa.Value, at *ssa.BasicBlock) []Outcome {
 	}
 	walk(v, BlockConds(at))
 	return out
+}
+
+func constOf(v ssa.Value) *ssa.Const {
+	for {
+		switch x := v.(type) {
+		case *ssa.Const:
+			return x
+		case *ssa.Convert:
+			v = x.X
+		case *ssa.ChangeType:
+			v = x.X
+		default:
+			return nil
+		}
+	}
+}
+
+// ForwardedValue: if v is a load that directly follows, in its own block, a store to the same place (no call or
+// other store in between), the stored value; otherwise v.  (`x.state = s; switch x.state {`)
+func ForwardedValue(v ssa.Value) ssa.Value {
+	u, ok := v.(*ssa.UnOp)
+	if !ok || u.Op != token.MUL || u.Block() == nil {
+		return v
+	}
+	instrs := u.Block().Instrs
+	idx := -1
+	for i, in := range instrs {
+		if in == ssa.Instruction(u) {
+			idx = i
+		}
+	}
+	for i := idx - 1; i >= 0; i-- {
+		switch x := instrs[i].(type) {
+		case *ssa.Store:
+			if x.Addr == u.X || (Path(x.Addr) == Path(u.X) && isPureLoadPath(u.X)) {
+				return x.Val
+			}
+			return v
+		case *ssa.Call, *ssa.Go, *ssa.Defer, *ssa.MapUpdate, *ssa.Send, *ssa.Select:
+			return v
+		}
+	}
+	return v
 }
